@@ -6,6 +6,7 @@ import Glom.Generated.GroupFacts
 -/
 namespace Glom.C16
 
-def genWF : Bool := WFSrc Generated.grpStmts Generated.grpSlots
+def genWF : Bool :=
+  WFSrc Generated.grpStmts Generated.grpSlots Generated.grpGlobals Generated.grpGlobalStmts Generated.tArith
 
 end Glom.C16
